@@ -75,6 +75,25 @@ def gen_case(rng, tier):
             return gen.case_from(g, state)
     if rng.random() < 0.04:
         return gen.case_from(g, directed_union_window(rng, g))
+    if rng.random() < 0.03:
+        # directed: sort on an expression over two columns -> projection dropping one of them ->
+        # deduplication -> a further projection (the sort can then not be lifted into an outer query)
+        cols = sorted(rng.sample("abcd", 3))
+        st = g.leaf("sql", want_cols=cols, allow_special=False)
+        if rng.random() < 0.4:
+            other = g.leaf("sql", want_cols=sorted(st[1]), allow_special=False)
+            if other[1] == st[1]:
+                st = (["chain", st[0], other[0]], st[1], "sql")
+        cl = sorted(st[1])
+        c1, c2 = rng.sample(cl, 2)
+        term = [[rng.choice(["add", "sub", "mul"]), ["ref", c1], ["ref", c2]], rng.random() < 0.5]
+        st = (["sort", st[0], [term] + ([[["ref", rng.choice(cl)], True]] if rng.random() < 0.3 else []), None], st[1], "sql")
+        keep = [c for c in cl if c != c2]
+        st = (["proj", st[0], keep, None], frozenset(keep), "sql")
+        st = (["dedup", st[0], None], st[1], "sql")
+        keep2 = sorted(rng.sample(keep, rng.randint(1, len(keep) - 1))) if len(keep) > 1 else keep
+        st = (["proj", st[0], keep2, None], frozenset(keep2), "sql")
+        return gen.case_from(g, st)
     return gen.case_from(g, g.tree())
 
 
